@@ -511,7 +511,8 @@ inductive Entry
   | transact | transactCtx | cachedTransact | cachedTransactCtx | nested | nestedCtx
   deriving DecidableEq, Repr
 
-/-- what each entry point does, read off its wiring (Tie: tie_wire_*): the ctx-less ones call `TransactCtx` with
+/-- what each entry point does, read off its wiring (Tie: tie_wire_*, and semantically tie_forwarding_sem: the
+typed argument lists of every hop composed for all caller contexts and bodies): the ctx-less ones call `TransactCtx` with
 `context.Background()` — never done, nothing to cancel under the body —, the cached ones delegate unchanged, the
 nested ones return `errCantNestTx` without touching anything. -/
 def runEntry (ep : Entry) (env : Env) (f : Faults) (b : Body) : Result :=
@@ -560,5 +561,228 @@ no Rollback) violates ends-exactly-once and rollback-iff-body-failed -/
 example : violated
     { log := [.begin true, .exec 0 true], runs := 1, body := .err (Err.of .ctx),
       ret := some (Err.of .ctx), mark := some true } = ["ends-exactly-once", "rollback-iff-body-failed"] := by decide
+
+/-! ### round 5: the whole configuration space, no retry, sequences of calls -/
+
+/-- the part of `commonSqlConn.acceptable` that does not depend on options -/
+def builtinAcceptable (e : Option Err) : Bool :=
+  e.isNone || hasCls e .noRows || hasCls e .txDone || hasCls e .canceled || hasCls e .accType
+
+/-- `db.acceptable` of a connection built with ANY list of `WithAcceptable` options, in option order:
+`db.accept` is what the option closures leave (`foldl withAcceptable none`); nil means "not acceptable" -/
+def acceptableOf (fs : List (Option Err → Bool)) (e : Option Err) : Bool :=
+  builtinAcceptable e ||
+    match fs.foldl withAcceptable none with
+    | none => false
+    | some g => g e
+
+theorem acceptableOf_eq (fs : List (Option Err → Bool)) (e : Option Err) :
+    acceptableOf fs e = (builtinAcceptable e || fs.any (· e)) := by
+  have h := withAcceptable_composes fs none e
+  unfold acceptableOf
+  cases hf : fs.foldl withAcceptable none with
+  | none =>
+    rw [hf] at h
+    cases fs with
+    | nil => simp
+    | cons a l => simp at h
+  | some g =>
+    rw [hf] at h
+    cases fs with
+    | nil => simp at h
+    | cons a l =>
+      simp at h
+      simp [h]
+
+theorem brkDo_mark_only (cd dd ba : Bool) (acc acc' : Option Err → Bool) (core : Result) :
+    brkDo cd dd ba acc core = { brkDo cd dd ba acc' core with mark := (brkDo cd dd ba acc core).mark } := by
+  unfold brkDo; cases cd <;> cases ba <;> simp
+
+/-- **Every option set, every constructor argument.**  For a connection built by either constructor with ANY
+list `fs` of `WithAcceptable` functions (arbitrary functions of the error, any number, any order), any connection
+provider answer, any breaker verdict and context state: `TransactCtx` = the breaker wrapper around `transact`
+with `db.acceptable` satisfies all eleven clauses, returns exactly what the configuration-free model returns
+(log, runs, body, error, escaping panic: options never change the transaction), and the breaker is told
+`nil ∨ builtin-acceptable ∨ f₁(err) ∨ … ∨ fₙ(err)` — every installed function is consulted. -/
+theorem all_option_sets_hold (fs : List (Option Err → Bool)) (env : Env) (f : Faults) (b : Body) :
+    holds (brkDo env.ctxDone env.ctxDead env.brkAllow (acceptableOf fs) (transactFn env.connOk f b)) = true ∧
+    violated (brkDo env.ctxDone env.ctxDead env.brkAllow (acceptableOf fs) (transactFn env.connOk f b)) = [] ∧
+    brkDo env.ctxDone env.ctxDead env.brkAllow (acceptableOf fs) (transactFn env.connOk f b) =
+      { transactCtx env f b with
+        mark := (brkDo env.ctxDone env.ctxDead env.brkAllow (acceptableOf fs) (transactFn env.connOk f b)).mark } ∧
+    (∀ m, (brkDo env.ctxDone env.ctxDead env.brkAllow (acceptableOf fs) (transactFn env.connOk f b)).mark = some m →
+      m = (builtinAcceptable (transactCtx env f b).ret || fs.any (· (transactCtx env f b).ret))) := by
+  have hw := transactCtx_is_wrapped_transact env f b
+  have hm := brkDo_mark_only env.ctxDone env.ctxDead env.brkAllow (acceptableOf fs) (acceptable env.userAccept)
+    (transactFn env.connOk f b)
+  rw [← hw] at hm
+  have hh : holds (brkDo env.ctxDone env.ctxDead env.brkAllow (acceptableOf fs) (transactFn env.connOk f b)) = true := by
+    rw [hm, holds_mark]; exact holds_ctx env f b
+  refine ⟨hh, violated_nil_of_holds _ hh, hm, ?_⟩
+  intro m hmk
+  have hret : (transactCtx env f b).ret =
+      (brkDo env.ctxDone env.ctxDead env.brkAllow (acceptableOf fs) (transactFn env.connOk f b)).ret := by
+    rw [hm]
+  rw [hret]
+  unfold brkDo at hmk ⊢
+  cases h1 : env.ctxDone <;> cases h2 : env.brkAllow <;> simp [h1, h2] at hmk ⊢
+  obtain ⟨_, h⟩ := hmk
+  rw [← h, acceptableOf_eq]
+
+/-- the model's two-function configurations are instances of it -/
+theorem acceptable_is_acceptableOf (ua : UA) (e : Option Err) :
+    acceptable ua e = acceptableOf ua.installed e := by
+  rw [acceptable_probes, acceptableOf_eq]
+  obtain ⟨a1, a2⟩ := ua
+  cases a1 <;> cases a2 <;> simp [builtinAcceptable, UA.installed, userFn1, userFn2, Bool.or_assoc]
+
+example : acceptableOf [fun e => hasCls e .userOk2, fun _ => false] (some (Err.of (.rollback .userOk2))) = true := by
+  decide
+
+/-- **No second transaction, no second run of the body — at every entry point**, whatever error any fault point
+produced (the model has no retry: a statement, Commit or Rollback answered driver.ErrBadConn is an ordinary
+error; the seeded change C14-7 re-ran `transactOnConn` on such an error). -/
+theorem no_second_transaction (ep : Entry) (env : Env) (f : Faults) (b : Body) :
+    (runEntry ep env f b).runs ≤ 1 ∧ count isBeginOk (runEntry ep env f b).log ≤ 1 ∧
+    count isBegin (runEntry ep env f b).log ≤ 1 ∧ count isEnd (runEntry ep env f b).log ≤ 1 := by
+  have key : ∀ (env : Env) (b : Body), (transactCtx env f b).runs ≤ 1 ∧ count isBeginOk (transactCtx env f b).log ≤ 1 ∧
+      count isBegin (transactCtx env f b).log ≤ 1 ∧ count isEnd (transactCtx env f b).log ≤ 1 := by
+    intro env b
+    have h1 := begins_at_most_one_transaction env f b
+    have h2 := body_runs_iff_begun env f b
+    have h3 := ends_exactly_once env f b
+    refine ⟨?_, ?_, h1.2.1, ?_⟩
+    · rw [h2.1]; split <;> omega
+    · rw [h1.1]; split <;> omega
+    · cases ho : opened env f
+      · rw [(h3.2 ho).2.2.2.1]; omega
+      · rw [(h3.1 ho).2.2.2.2.1]; omega
+  cases ep
+  case nested => simp [runEntry, count]
+  case nestedCtx => simp [runEntry, count]
+  all_goals exact key _ _
+
+/-- what the seeded change C14-7 did (statement answered ErrBadConn, rolled back, everything done again) -/
+example : violated
+    { log := [.begin true, .exec 0 false, .rollback true, .begin true, .exec 0 false, .rollback true],
+      runs := 2, body := .err (Err.of (.stmt 0)), ret := some (Err.of (.stmt 0)), mark := some false }
+    = ["begins-once", "ends-exactly-once", "body-runs-iff-begun"] := by decide
+
+/-- what the seeded change C14-6 did (a non-error panic swallowed by a wrapper around the body: committed, nil) -/
+example : violated { log := [.begin true, .commit true], runs := 1, body := .panic, ret := none }
+    = ["commit-iff-body-ok", "rollback-iff-body-failed", "panic-reported"] := by decide
+
+/-! ### sequences of calls on several connections -/
+
+/-- one call of a section: entry point, which of the two connections, environment, fault plan, body -/
+structure Call where
+  ep : Entry
+  second : Bool
+  env : Env
+  f : Faults
+  b : Body
+
+/-- the calls of a section, in order, on two connections built with their own options: each call sees the options
+of ITS connection; nothing else is carried from one call to the next (the breaker's history is the `brkAllow`
+input of each call) -/
+def runCalls (ua0 ua1 : UA) (cs : List Call) : List Result :=
+  cs.map fun c => runEntry c.ep { c.env with userAccept := if c.second then ua1 else ua0 } c.f c.b
+
+/-- **Every call of every sequence**, on either connection, through any entry point, after any history: all
+clauses hold and the breaker is told what the connection's OWN options say. -/
+theorem call_sequences_hold (ua0 ua1 : UA) (cs : List Call) :
+    (runCalls ua0 ua1 cs).all (fun r => holds r) = true ∧
+    (runCalls ua0 ua1 cs).length = cs.length ∧
+    ∀ c ∈ cs, breakerTold (if c.second then ua1 else ua0)
+      (runEntry c.ep { c.env with userAccept := if c.second then ua1 else ua0 } c.f c.b) = true := by
+  refine ⟨?_, by simp [runCalls], ?_⟩
+  · simp only [runCalls, List.all_map, List.all_eq_true]
+    intro c _
+    exact (every_entry_point_holds c.ep _ c.f c.b).1
+  · intro c _
+    exact (every_entry_point_holds c.ep { c.env with userAccept := if c.second then ua1 else ua0 } c.f c.b).2.2
+
+example : (runCalls { a1 := true } {} [⟨.transact, false, envOk, { begin := true, commit := true, rollback := true }, { stmts := [], fin := .err .userOk }⟩,
+    ⟨.transact, true, envOk, { begin := true, commit := true, rollback := true }, { stmts := [], fin := .err .userOk }⟩]).map (·.mark)
+    = [some true, some false] := by decide
+
+/-- **A statement's error reaches the body, and a body that returns it stops there**: a nested Transact / RawDB
+of a session connection (never reaches the driver), a QueryRow that finds no row, a driver fault (also one that
+wraps driver.ErrBadConn, also a refused Prepare) and any statement made under a done context yield an error; if
+the body returns it, that error is the body's outcome, only the driver calls up to this statement were made and
+nothing after it runs — whatever follows in the body. -/
+theorem statement_errors_reach_the_body (c : Option Nat) (dl : Bool) (i : Nat) (s : Stmt) (rest : List Stmt) :
+    ((s.kind = .nest ∨ s.kind = .rowq ∨ s.fails = true ∨ cancelled c i = true) → s.failingAt c i = true) ∧
+    (s.kind = .nest → stmtEvAt c i s = []) ∧
+    (s.failingAt c i = true → s.prop = true →
+      runStmts c dl i (s :: rest) = (stmtEvAt c i s, some (stmtSrcAt c dl i s))) ∧
+    (s.failingAt c i = false → (runStmts c dl i (s :: rest)).2 = (runStmts c dl (i + 1) rest).2) := by
+  refine ⟨?_, ?_, ?_, ?_⟩
+  · intro h
+    unfold Stmt.failingAt
+    rcases h with h | h | h | h <;> simp [h]
+  · intro h; simp [stmtEvAt, h]
+  · intro h1 h2; simp [runStmts, h1, h2]
+  · intro h; simp [runStmts, h]
+
+example : (runBody { stmts := [⟨.exec, false, true⟩, ⟨.exec, true, true⟩, ⟨.query, false, true⟩], fin := .ok }) =
+    ([.exec 0 true, .exec 1 false], .err (Err.of (.stmt 1))) := by decide
+
+/-! ### round 5 finding: `WithAcceptable(f), WithAcceptable(nil)` -/
+
+/-- **Finding (round 5).**  Options `WithAcceptable(f), WithAcceptable(nil)`: the pinned option closure installs
+`pre(err) || nil(err)`; for every error `f` does not accept the verdict evaluation calls the nil function. -/
+theorem witness_nil_option_is_called (e : Option Err) (h : userFn1 e = false) :
+    (([liftFn userFn1, none].foldl withAcceptablePinned none).map (· e)) = some none := by
+  simp [withAcceptablePinned, liftFn, h]
+
+/-- … so `Transact` leaves by a panic although the transaction ended in an orderly way (rolled back, the body's
+error known): the clause orderly-return is violated on the pinned code. -/
+theorem witness_nil_option_violates_orderly_return :
+    violated (brkDoP (fun e => match [liftFn userFn1, none].foldl withAcceptablePinned none with
+                               | some g => g e | none => some false)
+      (transactFn true { begin := true, commit := true, rollback := true } { stmts := [], fin := .err .plain }))
+      = ["orderly-return"] := by decide
+
+/-- alone or BEFORE a real function a nil argument is harmless also in the pinned code -/
+theorem pinned_nil_first_is_harmless (g : Option Err → Bool) :
+    [none, liftFn g].foldl withAcceptablePinned none = liftFn g ∧
+    [none].foldl withAcceptablePinned none = (none : AccFnP) := by
+  simp [withAcceptablePinned, liftFn]
+
+theorem fixed_step (cur : AccFn) (g : Option Err → Bool) :
+    withAcceptableFixed (liftAcc cur) (liftFn g) = liftAcc (withAcceptable cur g) := by
+  cases cur with
+  | none => rfl
+  | some pre =>
+    simp only [withAcceptableFixed, liftFn, withAcceptablePinned, liftAcc, withAcceptable, Option.map]
+    congr 1
+    funext e
+    cases pre e <;> rfl
+
+/-- **With the patch every nil option is ignored**: for any list of options, nil ones anywhere, the installed
+verdict function is the composition (`withAcceptable`) of the non-nil ones in order — never a nil call; so
+`all_option_sets_hold` applies to every option list. -/
+theorem fixed_nil_options_ignored (fs : List (Option (Option Err → Bool))) (cur : AccFn) :
+    (fs.map (fun o => o.elim none liftFn)).foldl withAcceptableFixed (liftAcc cur) =
+      liftAcc ((fs.filterMap id).foldl withAcceptable cur) := by
+  induction fs generalizing cur with
+  | nil => rfl
+  | cons o fs ih =>
+    cases o with
+    | none =>
+      simp only [List.map_cons, List.foldl_cons, Option.elim, List.filterMap_cons, id]
+      have : withAcceptableFixed (liftAcc cur) none = liftAcc cur := rfl
+      rw [this]; exact ih cur
+    | some g =>
+      simp only [List.map_cons, List.foldl_cons, Option.elim, List.filterMap_cons, id]
+      rw [fixed_step]; exact ih _
+
+example : ([some userFn1, none, some userFn2].map (fun o => o.elim none liftFn)).foldl withAcceptableFixed none
+    = liftAcc ([userFn1, userFn2].foldl withAcceptable none) := fixed_nil_options_ignored _ none
+
+/-- without nil arguments the pinned and the patched closure are the same -/
+theorem pinned_eq_fixed_without_nil (cur : AccFnP) (g : Option Err → Option Bool) :
+    withAcceptablePinned cur (some g) = withAcceptableFixed cur (some g) := rfl
 
 end GoZero.C14.Props
